@@ -61,7 +61,7 @@ def make_ops(rng, cfg, profile, tier):
         elif r < 0.69:
             ops.append({'op': 'SIMULATE', 'a': [rng.randrange(1 << 16)]})
         elif r < 0.8:
-            ops.append({'op': 'ESTIMATE', 'a': [rng.choice(ALGOS)]})
+            ops.append({'op': 'ESTIMATE', 'a': [rng.choice(ALGOS), rng.choice([0, 0, 2, 3])]})
         elif r < 0.87:
             ops.append({'op': 'GET', 'a': []})
         elif r < 0.93:
@@ -267,6 +267,10 @@ class Session:
             def two(u):
                 for f_ in u.b.formulas.values():
                     f_.set_id_manager(u.b.id_manager)
+                # a part of the formula is first evaluated on its own (temporary numbering, then restored)
+                kids = u.ll.get_children()
+                if kids:
+                    kids[0].get_value_c(database=u.db, aggregation=True, prepare_ids=True)
                 v1 = float(u.ll.get_value_c(database=u.db, betas={u.nm(n): v for n, v in x.items()}, aggregation=True,
                                             prepare_ids=False))
                 v2 = float(u.ll.get_value_c(database=u.db, betas={u.nm(n): v for n, v in over.items()}, aggregation=True,
@@ -303,10 +307,31 @@ class Session:
             algo = a[0]
             fixed_before = {n: s['value'] for n, s in self.store.items() if not s['free']}
 
+            boot = a[1] if len(a) > 1 and len(self.free_names()) >= 2 else 0
+
             def est(u):
                 u.b.biogeme_parameters.set_value('optimization_algorithm', algo)
-                return u.b.estimate()
+                if boot:
+                    u.b.biogeme_parameters.set_value('bootstrap_samples', boot)
+                return u.b.estimate(run_bootstrap=bool(boot))
             r0, r1 = self.both(est)
+            if boot:
+                # bootstrap replications reported by name: any subset of the names, in any order
+                for u, r in ((self.U[0], r0), (self.U[1], r1)):
+                    names_u = list(r.data.betaNames)
+                    sub = random.Random(len(names_u) + boot).sample(names_u, random.Random(boot).randrange(1, len(names_u) + 1))
+                    draws = r.get_betas_for_sensitivity_analysis(sub, use_bootstrap=True)
+                    bt = np.asarray(r.data.bootstrap)
+                    if len(draws) != bt.shape[0]:
+                        ctx.fail('I03.results', f'{len(draws)} bootstrap draws reported for {bt.shape[0]} replications')
+                    for row, d in zip(bt, draws):
+                        if sorted(d) != sorted(sub):
+                            ctx.fail('I03.results', f'bootstrap draw reported for {sorted(d)}, requested {sorted(sub)}')
+                        for nm_, v_ in d.items():
+                            if float(v_) != float(row[names_u.index(nm_)]):
+                                ctx.fail('I03.results', f'bootstrap draw reports {nm_} = {float(v_)!r}, the replication holds '
+                                                        f'{float(row[names_u.index(nm_)])!r} for that parameter')
+                    ctx.probe('bootstrap replications compared by name')
             self.cmp(f'final log likelihood [{algo}] under the two namings', r0.data.logLike, r1.data.logLike, rel=1e-6)
             e0, e1 = r0.get_beta_values(), r1.get_beta_values()
             p0 = r0.get_estimated_parameters(only_robust=False)
